@@ -73,6 +73,10 @@ func newConcWorld1(kind string) *vConcWorld {
 		p.TOTPAuthData[1] = &totpAuthData{Enabled: true, Name: "tok", EncryptedSecret: enc, CreatedAt: time.Unix(1700000000, 0)}
 	}
 	vMust(w.st.SaveUserProfile("alice", p))
+	// a bystander: nobody sends a request about carol; whatever the requests about alice do, her record stays as it is
+	for _, b := range vBystanders {
+		vMust(w.st.SaveUserProfile(b, vBystanderProfile()))
+	}
 	if kind == "bootstrap" {
 		g.botp = "otp-c16"
 		w.armBootstrapOTP("alice", g.botp, time.Hour)
@@ -159,6 +163,16 @@ func (g *vConcWorld) final() map[string]interface{} {
 		g.detail = append(g.detail, "stored profile unreadable: "+strings.ReplaceAll(err.Error(), "null", "nil"))
 		p = &userProfile{}
 	}
+	bystander := true
+	for _, b := range vBystanders {
+		bp, ok, _, berr := g.w.st.LoadUserProfile(b)
+		if berr != nil || !ok || bp.Username != "carol" || bp.DisplayName != "carol the bystander" ||
+			bp.LastSuccessfullTOTPCounter != 4711 || len(bp.U2fAuthData) != 1 || bp.U2fAuthData[3] == nil || bp.U2fAuthData[3].Name != "carols-token" ||
+			!bp.U2fAuthData[3].Enabled || len(bp.TOTPAuthData) != 0 || !bp.UserHasRegistered2ndFactor {
+			bystander = false
+			g.detail = append(g.detail, fmt.Sprintf("bystander record %s changed (err=%v found=%v)", b, berr, ok))
+		}
+	}
 	tok := func(present, enabled bool, name string) map[string]interface{} {
 		n := 0
 		if name == "renamed" {
@@ -178,7 +192,16 @@ func (g *vConcWorld) final() map[string]interface{} {
 	g.w.st.Mutex.Unlock()
 	return map[string]interface{}{"u2f": u, "totp": t, "pending": p.PendingTOTPSecret != nil, "regchal": p.RegistrationChallenge != nil,
 		"wchal": p.WebauthnSessionData != nil, "totpUsed": p.LastSuccessfullTOTPCounter > 0,
-		"botp": map[bool]int{false: g.botpValue(p), true: 9}[unreadable], "chal": chal}
+		"botp": map[bool]int{false: g.botpValue(p), true: 9}[unreadable], "chal": chal, "bystander": bystander}
+}
+
+// the bystanders: an unrelated name, and names that only resemble the acting user's (longer, other case, a suffix)
+var vBystanders = []string{"carol", "alice2", "Alice", "alice@example.com"}
+
+func vBystanderProfile() *userProfile {
+	return &userProfile{Username: "carol", DisplayName: "carol the bystander", UserHasRegistered2ndFactor: true,
+		U2fAuthData:  map[int64]*u2fAuthData{3: {Enabled: true, Name: "carols-token", CreatedAt: time.Unix(1700000001, 0)}},
+		TOTPAuthData: map[int64]*totpAuthData{}, LastSuccessfullTOTPCounter: 4711}
 }
 
 // runSchedule executes ops under the given prefix of choices (then lowest-id-first); returns results, the choices
